@@ -13,6 +13,7 @@ pub mod fastq {
     use super::stdspecs::*;
     use super::vx_panic;
     use core::slice;
+    use core::str::{self, Utf8Error};
     use core::iter::Iterator as StdIterator;
     use vstd::std_specs::iter::IteratorSpec;
     verus! {
@@ -1124,6 +1125,44 @@ trait RecordD {
         broadcast use lemma_split_cut, lemma_split_cut2;
 //@closure 0 params="b: &u8" ret="(r: bool)"
             ensures r == (*b == 32u8)
+//@end
+
+//@fn fastq::Record::id ret=r tags=C13
+//@spec
+        requires self.rwf(),
+        ensures
+            [C13|fastq.Record.id] (r is Ok <==> valid_utf8(id_of(self.head_s()))) && (r matches Ok(t) ==> str_bytes(t) == id_of(self.head_s())),
+//@end
+
+//@fn fastq::Record::desc_bytes ret=r tags=C13,C06
+//@spec
+        requires self.rwf(),
+        ensures
+            [C13|fastq.Record.desc_bytes] (r matches Some(d) ==> desc_of(self.head_s()) == Some(d@)) && (r is None ==> desc_of(self.head_s()) is None),
+//@body_start
+        broadcast use lemma_split_cut, lemma_split_cut2;
+//@closure 0 params="b: &u8" ret="(r: bool)"
+            ensures r == (*b == 32u8)
+//@end
+
+//@fn fastq::Record::desc ret=r tags=C13
+//@spec
+        requires self.rwf(),
+        ensures
+            [C13|fastq.Record.desc] (r is None <==> desc_of(self.head_s()) is None)
+                && (r matches Some(x) ==> (x is Ok <==> valid_utf8(desc_of(self.head_s()).unwrap())) && (x matches Ok(t) ==> str_bytes(t) == desc_of(self.head_s()).unwrap())),
+//@end
+
+//@fn fastq::Record::id_desc_bytes ret=r tags=C13,C06
+//@spec
+        requires self.rwf(),
+        ensures
+            [C13|fastq.Record.id_desc_bytes] r.0@ == id_of(self.head_s())
+                && (r.1 matches Some(d) ==> desc_of(self.head_s()) == Some(d@)) && (r.1 is None ==> desc_of(self.head_s()) is None),
+//@body_start
+        broadcast use lemma_split_cut, lemma_split_cut2;
+//@closure 0 params="c: &u8" ret="(r: bool)"
+            ensures r == (*c == 32u8)
 //@end
 
 //@fn fastq::Record::write ret=r tags=C11
